@@ -1,6 +1,6 @@
 """C06 -- exactly one matching reply per request, delivered in request order."""
 from vrt import glue, sim, srv, ref_cip as ref
-from vrt.ob import define, obligation
+from vrt.ob import define, obligation, concretize
 import cpppo
 from cpppo.server.enip import parser, device, logix, ucmm, main as enip_main
 
@@ -169,7 +169,7 @@ def do_sequence(kinds, ctxs, v, cuts):
         frames.append(rr_frame(1001, [c] * 8, 0, req))
         expect.append((c, svc, good))
     stream = [x for f in frames for x in f]
-    pos = sorted(c % (len(stream) + 1) for c in cuts)
+    pos = sorted(concretize(c, len(stream) + 1) for c in cuts)
     chunks, at = [], 0
     for p in pos:
         chunks.append(bytes(bytearray(stream[at:p])))
